@@ -154,7 +154,8 @@ def meatRows (i : Inp α) (m : Nat) : List (Row α) :=
     [ (if m = 0 then row "Meat_Start" m (mv .meatStart 0) .eq (k i.meatSummed)
        else row "Meat_Start" m (mv .meatStart m) .eq (mv .meatEnd (m - 1))),
       row "Meat_Eaten" m (mv .meatEnd m) .eq (mv .meatStart m - gross (mv .meatEaten m) i.wMeat),
-      row "Meat_Eaten_Maximum" m (gross (mv .meatEaten m) i.wMeat) .le (k (at' i.maxCulled m)) ]
+      -- cumulative consumption (initial stock − stock left) ≤ running slaughter total
+      row "Meat_Eaten_Maximum" m (k i.meatSummed - mv .meatEnd m) .le (k (at' i.maxCulled m)) ]
 
 def scpRows (i : Inp α) (m : Nat) : List (Row α) :=
   [ row "Methane_SCP" m (gross (mv .scpHumans m) i.wScp + mv .scpFeed m + mv .scpBiofuel m) .le (k (at' i.scp m)) ]
